@@ -9,6 +9,7 @@ import (
 	"encoding/hex"
 	"fmt"
 	"hash"
+	"os"
 	"runtime"
 	"sort"
 	"sync"
@@ -218,6 +219,34 @@ func NewWorld(seed uint64, gen, sched *Chooser, keepLog bool) *World {
 
 func SetWorld(w *World) { cur.Store(w) }
 func Cur() *World       { return cur.Load() }
+
+// LockYield is called by simsync before every lock acquisition: in a salted scheduler step a pseudo-random quarter of
+// the acquisitions first let every other runnable goroutine go ahead (a yield at lock granularity). The decision is a
+// pure function of the step's salt and the call site (like SelectOrder), so it replays and no goroutine left over
+// from an earlier run of the same process can shift it.
+func LockYield() {
+	w := Cur()
+	if w == nil {
+		return
+	}
+	s := w.Salt()
+	if s == 0 || lockYieldOff {
+		return
+	}
+	// the site: return addresses of the frames above simsync's Lock (stable within one binary, no state of the run)
+	var pcs [3]uintptr
+	k := runtime.Callers(3, pcs[:])
+	h := uint64(s) * 0x9e3779b97f4a7c15
+	for i := 0; i < k; i++ {
+		h = (h ^ uint64(pcs[i])) * 0x100000001b3
+	}
+	r := rng{s: h}
+	if r.intn(4) == 0 {
+		runtime.Gosched()
+	}
+}
+
+var lockYieldOff = os.Getenv("SIM_LOCK_YIELD") == "0"
 
 func (w *World) SetSalt(s int) { w.salt.Store(int64(s)) }
 func (w *World) Salt() int     { return int(w.salt.Load()) }
